@@ -188,8 +188,13 @@ CLAIMED = {
              "injective renamings; the traversal is parametric in the carrier of compiled values, so compiled values are never "
              "substituted into again (go_natural); evaluate reads assigned values in the original environment (evaluate_sound). "
              "The hier-rename stream renames one random scope onto the shared name pool and compares the two real compilations "
-             "at every node. Partial: rename-invariance of the whole compile function (as opposed to each substitution it "
-             "performs) is exercised by that stream, not proved.",
+             "at every node. Whole node (NodeRenameFacts): go_node_rename - for any carrier and any expression step that does not "
+             "care how the scope's names are spelled, a subroutine whose parameters, local variables, link sources and all their "
+             "occurrences are renamed by an injective map (fixing port variables and child.resource references) compiles to the "
+             "same node, children identically; compile_node_rename - the compile model on well-scoped binder-free expressions is "
+             "such a step (incl. equivariance of the ordering of local variables, kahn_rename). Partial: nodes with a repetition, "
+             "expressions with sums / products, the preprocessing stages and the renaming of promoted top-level inputs are "
+             "exercised by the stream, not proved.",
         design_ref="DESIGN.md section 5 C03",
         note="Trusted: Coq kernel; compile/evaluate models tied by streams; iterator symbols are outside the renaming pool.",
         technique="Coq alpha-invariance lemmas + parametricity of the traversal + differential renaming stream",
